@@ -16,7 +16,9 @@ RULE = (
     "arguments, embedded before/after a section and block in two layouts; "
     "hostile-neighbour family: a direction-less range followed by an "
     "ordinary word beginning with e/w (never a direction word); OCR family: "
-    "digits replaced by I/l/O/S under ocr_scrub. Oracle: expected natural "
+    "digits replaced by I/l/O/S under ocr_scrub; pair family: two Twp/Rge's "
+    "in one description (also the same one written once in full and once "
+    "without direction). Oracle: expected natural "
     "form T{t}{NS}-R{r}{EW} with NS/EW = explicit letter else the effective "
     "default: tract trs, pp_desc prefix, find_twprge(preprocess=True) and "
     "fixed_twprge warning <=> something was missing; an icontract "
@@ -35,7 +37,7 @@ ASSUMPTIONS = [
 MIN_NONTRIVIAL = {'quick': 12000, 'thorough': 200000}
 REQUIRED_MONITORS = ['boundary:PLSSDesc', 'boundary:find_twprge',
                      'contract:unpack_twprge', 'default-filled',
-                     'hostile-neighbour', 'ocr']
+                     'hostile-neighbour', 'ocr', 'pair']
 EXHAUSTIVE_SUBSPACES = {
     'thorough': ["compact spelling, t 1..199 x r 1..130, directions rotating"],
 }
@@ -251,6 +253,59 @@ def _setup(ctx):
     return pytrs, rep
 
 
+def check_pair(rng, ctx, rep, pytrs):
+    """Two Twp/Rge's in one description, one of them (or both, or none)
+    written without a direction -- also the SAME Twp/Rge written once in full
+    and once without direction: the fixed_twprge warning must be there
+    exactly when a direction was missing."""
+    t = rng.randint(1, 199)
+    r = rng.choice([rng.randint(3, 9), rng.randint(10, 130)])
+    ns, ew = rng.choice('ns'), rng.choice('ew')
+    same = rng.random() < 0.5
+    t2, r2 = (t, r) if same else (t + rng.randint(1, 5), r)
+    dns, dew = (ns, ew) if same and rng.random() < 0.7 else \
+        (rng.choice('ns'), rng.choice('ew'))
+    drops = [rng.choice([(False, False), (True, False), (False, True),
+                         (True, True)]) for _ in range(2)]
+    forms_ = []
+    for (tt, rr), (dn, de) in zip(((t, r), (t2, r2)), drops):
+        fs = forms(tt, ns, rr, ew, dn, de)
+        forms_.append(fs[rng.choice(sorted(fs))])
+    txt = f"{forms_[0]} Sec 14: NE/4, {forms_[1]} Sec 15: NW/4"
+    exp = []
+    for (tt, rr), (dn, de), sec in zip(((t, r), (t2, r2)), drops, ('14', '15')):
+        exp.append(f"{tt}{dns if dn else ns}{rr}{dew if de else ew}{sec}")
+    missing = any(dn or de for dn, de in drops)
+    case = {'pair': True, 'text': txt, 'defaults': dns + dew,
+            'expected': exp, 'missing': missing}
+    rep.set_case(case)
+    ctx.case([txt, dns, dew], True, shape=f"pair|same={same}",
+             sample={'text': txt, 'defaults': dns + dew, 'expected': exp})
+    ctx.hit('pair')
+    with ctx.guard(case):
+        d = pytrs.PLSSDesc(txt, config=f"{dns},{dew}")
+        got = [x.trs for x in d.tracts]
+        if got != exp:
+            ctx.violation('pair-trs', case,
+                          f"{txt!r} defaults {dns}{dew}: {got}, expected {exp}"
+                          f" (pp {short(d.pp_desc, 80)!r})", dedup=str(same))
+            return
+        fixed = any('fixed_twprge' in w for w in d.w_flags)
+        if fixed != missing:
+            ctx.violation(
+                'fixed_twprge-warning', case,
+                f"{txt!r} defaults {dns}{dew}: a direction was missing: "
+                f"{missing}; fixed_twprge warning present: {fixed} (w_flags "
+                f"{d.w_flags})", dedup=f"pair|{same}|{missing}")
+        for k, tr_ in enumerate(d.tracts):
+            if any('fixed_twprge' in w for w in tr_.w_flags) != missing:
+                ctx.violation('fixed_twprge-warning-on-tract', case,
+                              f"tract #{k} of {txt!r}: warning present "
+                              f"{not missing} but expected {missing}",
+                              dedup='tract')
+                break
+
+
 def gen_case(rng):
     t = rng.choice([rng.randint(1, 9), rng.randint(10, 99),
                     rng.randint(100, 999)])
@@ -300,14 +355,17 @@ def run_shard(shard, ctx):
         check(gen_case(rng), ctx, rep, pytrs)
         if i % 6 == 0:
             check_ocr(rng, ctx, rep, pytrs)
+        if i % 4 == 0:
+            check_pair(rng, ctx, rep, pytrs)
 
 
 def replay(case, ctx):
     pytrs, rep = _setup(ctx)
-    if case.get('ocr'):
+    if case.get('ocr') or case.get('pair'):
         rng = ctx.rng('random', 0)
         for _ in range(300):
             check_ocr(rng, ctx, rep, pytrs)
+            check_pair(rng, ctx, rep, pytrs)
         return
     check(case, ctx, rep, pytrs)
 
